@@ -58,7 +58,8 @@ VARIABLES
   cli,       \* [Clients -> [conn, shut, fin, w2r, closed, hscut]]
   c2s, s2c,  \* [Clients -> Seq(packet)]           transport, FIFO
   link,      \* [Clients -> {"ok","broken"}]       state of the current transport
-  proxy,     \* [Clients -> {"pass","refuse"}]     environment: can a new transport be established
+  proxy,     \* [Clients -> {"pass","refuse","hold"}]  environment: can a new transport be established
+             \*   (hold: the connection attempt neither succeeds nor fails until the mode changes)
   sconn,     \* [Clients -> [st, rl, wq]]          server side of the client's connection
   srv,       \* [CallIds -> [st, out, live]]       server side of one request
   orph,      \* requests still readable by a connection the server side of which is being torn down
@@ -513,7 +514,7 @@ SetProxy(c, m) ==
   /\ pend' = pend \cup {Cmd("proxy", c, m)}
   /\ UNCHANGED <<call, writeQ, inFlight, cli, c2s, s2c, link, proxy, sconn, srv, orph, pool, mem, srvSt>>
 ProxyDo(c) ==
-  \E m \in {"pass", "refuse"} :
+  \E m \in {"pass", "refuse", "hold"} :
     /\ Cmd("proxy", c, m) \in pend
     /\ pend' = pend \ {Cmd("proxy", c, m)}
     /\ proxy' = [proxy EXCEPT ![c] = m]
@@ -545,7 +546,7 @@ Internal == Deviations \/ Mainline
 Visible ==
   \/ \E id \in CallIds : (\E t, f \in BOOLEAN : Invoke(id, t, f)) \/ CtxCancel(id) \/ Return(id)
                          \/ HandlerEnter(id) \/ (\E o \in HandlerOuts : HandlerExit(id, o))
-  \/ \E c \in Clients : CliCloseBegin(c) \/ Cut(c) \/ (\E m \in {"pass", "refuse"} : SetProxy(c, m))
+  \/ \E c \in Clients : CliCloseBegin(c) \/ Cut(c) \/ (\E m \in {"pass", "refuse", "hold"} : SetProxy(c, m))
   \/ SrvShutdown \/ SrvCloseBegin
 
 Next == Internal \/ Visible
